@@ -281,7 +281,9 @@ class Engine:
                     cx.outcome = out
                     tag = spec.target.split(":")[-1]
                     rs = spec.raises(cx, st)
-                    if out.kind == "raise":
+                    if out.kind == "raise" and issubclass(out.exc.cls, tuple(getattr(spec, "may_raise", ()))):
+                        pass     # an exception class the contract leaves unconstrained
+                    elif out.kind == "raise":
                         where = f"line {getattr(out.node, 'lineno', '?')}" if out.node is not None else None
                         allowed = [c for k, c in rs if issubclass(out.exc.cls, k)]
                         goal = z3.Or(*allowed) if allowed else z3.BoolVal(False)
@@ -293,7 +295,8 @@ class Engine:
                                      z3.And(*[z3.Not(c) for k, c in rs]), assume_after=False,
                                      meta={"outcome": "return"})
                         for name, goal in spec.post(cx, st, out):
-                            cx.prove(f"{tag}: {name}", goal, assume_after=False, meta={"outcome": "return"})
+                            cx.prove(f"{tag}: {name}", goal, assume_after=False,
+                                     meta={"outcome": "return", **getattr(spec, "ob_meta", {})})
                 except PathInfeasible:
                     cx.infeasible = True
                 except PathEnd:
